@@ -40,10 +40,18 @@ impl<'a> ZoneHydrator<'a> {
             debug!(target: "sneldb::query", "Collected {} candidate zones", candidate_zones.len());
         }
 
-        // Deduplicate zones by (zone_id, segment_id) to avoid double-processing the same zone
+        // Deduplicate zones by (zone_id, segment_id, uid) to avoid double-processing the same zone
         // when missing-index fallbacks enumerate AllZones across multiple filter steps.
-        let mut seen: HashSet<(u32, String)> = HashSet::with_capacity(candidate_zones.len());
-        candidate_zones.retain(|z| seen.insert((z.zone_id, z.segment_id.clone())));
+        // Zone ids restart at 0 for every event type inside a segment, hence the uid.
+        let mut seen: HashSet<(u32, String, Option<String>)> =
+            HashSet::with_capacity(candidate_zones.len());
+        candidate_zones.retain(|z| {
+            seen.insert((
+                z.zone_id,
+                z.segment_id.clone(),
+                z.uid().map(str::to_string),
+            ))
+        });
 
         let zones_after_dedup = candidate_zones.len();
 
